@@ -505,6 +505,7 @@ Arguments VNum {F} x.
 Arguments VStr {F} s.
 Arguments VArr {F} l.
 Arguments VObj {F} m.
+Arguments depth {F} v.
 
 (* Value::parse = parse_max_depth with the constant read from the source (TablesJson.MAX_DEPTH) *)
 Definition parse {F} (fparse : str -> option F) (s : str) : outcome (value F) :=
